@@ -136,6 +136,12 @@ impl EventSource for Mock {
         if sh.mocks[id].registered {
             sh.alarms.push(("no_double_register".into(), "register-while-registered".into(), format!("child #{} registered while registered", id)));
         }
+        // only the current child is ever registered: a replaced one is taken out before its successor goes in
+        if let Some(other) = sh.mocks.iter().position(|m| m.registered) {
+            if other != id {
+                sh.alarms.push(("registered_iff_current_kept".into(), "child-registered-while-its-predecessor-still-is".into(), format!("child #{} registered while child #{} is still registered", id, other)));
+            }
+        }
         sh.mocks[id].registered = true;
         sh.mocks[id].reg_calls += 1;
         sh.mocks[id].token = Some(f.token());
@@ -209,7 +215,9 @@ impl Model {
             Op::Replace => !self.empty && self.nchildren < max_children,
             Op::Register => !self.preg,
             Op::Reregister => self.preg,
-            Op::Unregister => self.preg && !self.dirty,
+            // (a parent may be unregistered - disabled or removed by the loop - with a change still pending: it
+            // answers Disable/Remove itself in the process_events call in which the child asked for a change)
+            Op::Unregister => self.preg,
         }
     }
 }
